@@ -98,6 +98,15 @@ def correspondence(ctx):
                         names = [n for n, _ in J['own']]
                         dps = [torch.randn(p.shape, generator=gen, dtype=torch.float64) for _, p in J['own']]
                         gdot = (J['grads'][0] * dx).sum().item() + sum((g * q).sum().item() for g, q in zip(J['grads'][1:], dps) if g is not None)
+                    elif e.kind == 'nonlin' and J['own']:
+                        # the layer's own trainable parameters (Sigmoid with learn_temperature)
+                        dps = [torch.randn(p.shape, generator=gen, dtype=torch.float64) for _, p in J['own']]
+                        gdot = (J['grads'][0] * dx).sum().item()
+                        for g, q, (nm, _) in zip(J['grads'][1:], dps, J['own']):
+                            if g is None:
+                                gdot = float('nan')   # a parameter that influences the result received no gradient
+                            else:
+                                gdot += (g * q).sum().item()
                     else:
                         dps = []
                         gdot = (J['grads'][0] * dx).sum().item()
@@ -118,8 +127,10 @@ def correspondence(ctx):
                         P = torch.cat([getattr(t, nm).detach().reshape(n, -1) for nm in order], -1)
                         dP = torch.cat([byname[nm].reshape(n, -1) for nm in order], -1)
                         f[1] = pair_bits(P, dP)
+                    elif e.kind == 'nonlin' and J['own'] and e.extra['cls'] == 'Sigmoid' and len(f) > 1 and f[1]:
+                        f[1] = pair_bits(t.temperature.detach().reshape(1), dps[0].reshape(1))
                     elif len(f) > 1 and f[1]:
-                        f[1] = list(f[1])   # nonlin element parameters: zero tangent (their gradients are autograd's business)
+                        f[1] = list(f[1])   # constants of the layer (no trainable parameter): zero tangent
                     req['f'] = f
                     reqs.append(req)
                     metas.append((e, regime, inverse, d, J, gdot))
@@ -140,6 +151,13 @@ def correspondence(ctx):
         tol = 1e-6 * (1 + abs(gdot)) + 1e-12 * kap * kap
         if e.spline.get('fam') == 'cubic' and inverse:
             tol = max(tol, 1e-3 * (1 + abs(gdot)))
+        if vals_ok and not math.isfinite(mdot) and not math.isfinite(gdot):
+            # implementation and model agree that the derivative is not finite: the model mirrors the code, and the
+            # property (finite gradients) fails at this input on both -> a concrete failing input, not a disagreement
+            ctx.case(key=(e.name, regime, inverse, d, 'nonfinite'), branch='nonfinite-gradient-both', nontrivial=True, n=int(J['x'].numel()))
+            ctx.fail('gradient is not finite (autograd and the dual-number model agree)', case,
+                     match={'class': e.name.split('/')[0], 'family': e.spline.get('fam'), 'inverse': inverse, 'symptom': 'grad-nonfinite'})
+            continue
         ok = vals_ok and math.isfinite(mdot) and abs(mdot - gdot) <= tol
         ctx.case(key=(e.name, regime, inverse, d), branch='%s/%s/%s' % (e.kind, e.name.split('/')[0], 'inv' if inverse else 'fwd'),
                  nontrivial=abs(gdot) > 1e-12,
@@ -147,6 +165,7 @@ def correspondence(ctx):
         if not ok:
             ctx.disagree('C16/' + e.kind, case, gdot, mdot, 'directional derivative: autograd %r vs dual-number model %r' % (gdot, mdot))
     structural(ctx, gen)
+    cached_linear_grads(ctx, gen)
 
 
 def structural(ctx, gen):
@@ -176,6 +195,42 @@ def structural(ctx, gen):
                 ctx.disagree('C16/structural', {'entry': e.name, 'mode': mode}, why, 'all parameters receive finite gradients, backward twice', why)
 
 
+def cached_linear_grads(ctx, gen):
+    """linear family in eval mode with the weight cache on: parameter gradients through the cached path (first cached call
+    = inverse, then forward in a fresh cache epoch) must equal those of the uncached path"""
+    import copy
+    import nflows.transforms as T
+    for name, build in (('LULinear', lambda: T.LULinear(3, identity_init=False)), ('QRLinear', lambda: T.QRLinear(3, num_householder=2)),
+                        ('SVDLinear', lambda: T.SVDLinear(3, num_householder=2, identity_init=False)), ('NaiveLinear', lambda: T.NaiveLinear(3))):
+        torch.manual_seed(int(torch.randint(0, 2 ** 31 - 1, (1,), generator=gen)))
+        t = build().double()
+        with torch.no_grad():
+            for p in t.parameters():
+                p.add_(0.3 * torch.randn(p.shape, generator=gen, dtype=p.dtype))
+        ref = copy.deepcopy(t)
+        x = torch.randn(4, 3, generator=gen, dtype=torch.float64)
+        for first in ('inverse', 'forward'):
+            t.train(); t.eval(); t.use_cache(True); ref.eval(); ref.use_cache(False)
+            t.zero_grad(); ref.zero_grad()
+            why = ''
+            try:
+                ya, la = (t.inverse(x) if first == 'inverse' else t(x))
+                (ya.sum() + la.sum()).backward()
+                yb, lb = (ref.inverse(x) if first == 'inverse' else ref(x))
+                (yb.sum() + lb.sum()).backward()
+                for (n, p), (_, q) in zip(t.named_parameters(), ref.named_parameters()):
+                    if q.grad is not None and q.grad.abs().max() > 0:
+                        if p.grad is None:
+                            why = 'parameter %s receives no gradient through the cached %s' % (n, first); break
+                        if not torch.allclose(p.grad, q.grad, rtol=1e-8, atol=1e-10):
+                            why = 'gradient of %s through the cached %s differs from the uncached one' % (n, first); break
+            except Exception as ex:
+                why = 'raised %r' % (ex,)
+            ctx.case(key=('cached-grads', name, first), branch='structural/cached-linear', nontrivial=True)
+            if why:
+                ctx.disagree('C16/structural', {'class': name, 'first_cached_call': first}, why, 'same parameter gradients as the uncached transform', why)
+
+
 def search(ctx):
     """central finite differences of the implementation in float64 away from kinks"""
     gen = torch.Generator().manual_seed(ctx.seed + 1616)
@@ -202,7 +257,7 @@ def search(ctx):
                 cls = e.name.split('/')[0]
                 case = {'entry': e.name, 'inverse': inverse, 'x': x.reshape(-1).tolist()[:12]}
                 if g is None or not torch.isfinite(g).all():
-                    ctx.fail('gradient w.r.t. inputs missing or non-finite', case, match={'class': cls, 'symptom': 'grad-nonfinite'}); continue
+                    ctx.fail('gradient w.r.t. inputs missing or non-finite', case, match={'class': cls, 'family': e.spline.get('fam'), 'inverse': inverse, 'symptom': 'grad-nonfinite'}); continue
                 dx = torch.randn(x.shape, generator=gen, dtype=x.dtype)
                 h = 1e-6
                 with torch.no_grad():
@@ -215,3 +270,7 @@ def search(ctx):
             ctx.notes.append('C16 oracle on %s raised %r' % (e.name, ex))
         if len(ctx.failing) >= 6 or ctx.elapsed() > 900:
             break
+
+
+def replay_finding(ctx, f):
+    return oracles.replay_transform_finding(ctx, f)
